@@ -1,10 +1,168 @@
-(* Props/C05.v — property theorems only; proofs live in Proofs/C05.v. *)
+(* Props/C05.v — property theorems only; proofs live in Proofs/C05.v, the
+   predicates in Proofs/C05Spec.v, the model in Model/Server.v.
+
+   Quantification: every theorem is over ALL servers (handler tables,
+   per-command policy functions, authorizers — arbitrary functions), ALL initial
+   session caches and ALL multi-connection histories: any list of connections,
+   session expiries and application-installed sessions; each connection with an
+   arbitrary leading integer, an arbitrary handshake outcome (failed, full with
+   any reported and real properties, resumption of any session id), an arbitrary
+   list of follow-on commands and handler behaviours, and server tables that may
+   change before every single dispatch. *)
 From Coq Require Import List ZArith NArith Bool.
-From Cedar Require Import gen.FactsC05 Model.Server Proofs.C05.
+From Cedar Require Import gen.FactsC05 Model.Server Proofs.C05Spec Proofs.C05.
 Import ListNotations.
 
+(* commandLevelSatisfied, over its whole domain (every policy incl. nil, both flags) *)
 Theorem C05_level_check : forall req a e,
   level_ok req a e = true <->
   ((requires_authn req = true -> a = true) /\ (requires_enc req = true -> e = true)).
 Proof. exact level_ok_spec. Qed.
 Print Assumptions C05_level_check.
+
+(* Every invoked authenticated handler, at the moment of the call: is the
+   function currently registered, non-raw, for that command; its session
+   reports authentication / encryption if the command's CURRENT policy requires
+   them; and if an authorizer is set NOW the identity is authorized NOW, from
+   this peer, at one of the command's currently registered levels. *)
+Theorem C05_dispatch : forall k evs i,
+  In i (history_invocations k evs) -> i_rawpath i = false ->
+  registered_authenticated i /\ meets_policy_reported i /\ authorized_now i.
+Proof. exact history_dispatch. Qed.
+Print Assumptions C05_dispatch.
+
+(* End-to-end composition with C03 ("reported = real" for every full handshake
+   in the history, and for sessions the application installs): every invoked
+   authenticated handler runs on a session that is REALLY authenticated and a
+   stream that is REALLY encrypting whenever the command's current policy
+   requires it — fresh, kept alive, or resumed after any number of connections. *)
+Theorem C05_dispatch_real : forall k evs i,
+  cache_faithful k ->
+  Forall full_faithful (history_fulls evs) ->
+  Forall entry_faithful (history_imports evs) ->
+  In i (history_invocations k evs) -> i_rawpath i = false -> meets_policy_real i.
+Proof. exact history_dispatch_real. Qed.
+Print Assumptions C05_dispatch_real.
+
+(* Raw handlers run only through the raw path (no Negotiation, plaintext
+   stream) and authenticated handlers only through the DC_AUTHENTICATE path. *)
+Theorem C05_separation : forall k evs i,
+  In i (history_invocations k evs) ->
+  (i_rawpath i = false /\ registered_authenticated i /\ i_neg i <> None) \/
+  (i_rawpath i = true /\ registered_raw i /\ i_neg i = None /\ i_enc_real i = false).
+Proof. exact history_separation. Qed.
+Print Assumptions C05_separation.
+
+(* which path a connection takes is decided by its leading integer alone *)
+Theorem C05_separation_by_first_int : forall k cn k' ds e i,
+  serve_conn k cn = (k', (ds, e)) -> In i (invocations ds) ->
+  exists c, c_first cn = Some c /\
+    if Z.eqb c DC_AUTHENTICATE
+    then i_rawpath i = false /\ registered_authenticated i /\ i_neg i <> None
+    else i_rawpath i = true /\ registered_raw i /\ i_neg i = None /\ i_cmd i = c /\ i_enc_real i = false.
+Proof. exact serve_conn_separation. Qed.
+Print Assumptions C05_separation_by_first_int.
+
+(* A refused or unknown command is the last event of its connection: no handler
+   runs for it or after it, the connection is closed and an error returned. *)
+Theorem C05_refusal_closes : forall k evs ds e pre c why post,
+  In (ds, e) (run_history k evs) -> ds = pre ++ DRefuse c why :: post ->
+  post = [] /\ e = EClosedErr /\ invocations ds = invocations pre.
+Proof. exact history_refusal. Qed.
+Print Assumptions C05_refusal_closes.
+
+(* The dispatched commands are exactly a prefix of the commands the client
+   asked for, in order: nothing runs that was not requested, nothing is skipped
+   (so nothing runs after a refusal either). *)
+Theorem C05_commands_as_sent : forall k cn k' ds e,
+  serve_conn k cn = (k', (ds, e)) ->
+  ds = [] \/
+  exists c, c_first cn = Some c /\
+    if Z.eqb c DC_AUTHENTICATE
+    then exists c0, requested (c_hs cn) = Some c0 /\ is_prefix (map dispatch_cmd ds) (c0 :: follow_ons (c_steps cn))
+    else map dispatch_cmd ds = [c].
+Proof. exact serve_conn_commands_as_sent. Qed.
+Print Assumptions C05_commands_as_sent.
+
+(* What a resumed session carries is exactly what was stored: Authenticated,
+   User, the ghost "really authenticated"; the stream really encrypts iff a
+   usable AES key is stored. *)
+Theorem C05_resumption_restores : forall en s c cs,
+  resume en s c = Some cs ->
+  n_cmd (cs_neg cs) = c /\ n_sid (cs_neg cs) = s /\
+  n_authn (cs_neg cs) = e_authn en /\ n_user (cs_neg cs) = e_user en /\
+  cs_auth_real cs = e_auth_real en /\
+  (cs_enc_real cs = true <-> e_key en = KAes) /\
+  (n_enc (cs_neg cs) = true <-> (e_key en = KAes \/ e_key en = KAesEmpty)).
+Proof. exact resume_restores. Qed.
+Print Assumptions C05_resumption_restores.
+
+(* ValidCommands is limited to authenticated commands this very session could
+   run right now. *)
+Theorem C05_valid_commands_sound : forall s u peer a e c,
+  In c (post_auth_policy s u peer a e) ->
+  (exists h, lookup (s_handlers s) c = Some h /\ h_raw h = false /\ h_perms h <> []) /\
+  (forall n, n_authn n = a -> n_enc n = e -> n_user n = u -> session_satisfies s c peer (Some n) = true).
+Proof. exact post_auth_policy_sound. Qed.
+Print Assumptions C05_valid_commands_sound.
+
+(* ---- non-vacuity and necessity of the hypotheses ---------------------------------- *)
+
+Definition ex_pol_open := {| p_authn := LOptional; p_enc := LOptional; p_integ := LOptional |}.
+Definition ex_pol_strict := {| p_authn := LRequired; p_enc := LRequired; p_integ := LRequired |}.
+Definition ex_srv (az : option (perm -> addr -> user -> bool)) : server :=
+  {| s_default := Some ex_pol_open;
+     s_percmd := Some (fun c => if Z.eqb c 1005 then Some ex_pol_strict else None);
+     s_authorizer := az;
+     s_handlers := handle (handle (handle_raw [] 1006%Z 6%N) 1005%Z 5%N [3%N]) 1001%Z 1%N [1%N] |}.
+Definition ex_full : full :=
+  {| f_cmd := 1001%Z; f_authn := true; f_enc := true; f_user := 2%N; f_sid := 1%N; f_haskey := true;
+     f_auth_real := true; f_enc_real := true |}.
+(* connection 1: full handshake for the permissive command, kept alive, then the
+   strict command; connection 2 (authorizer now set): the session is resumed for
+   the strict command; connection 3: raw command *)
+Definition ex_history : list event :=
+  [ EConn {| c_srv := ex_srv None; c_peer := 1%N; c_first := Some DC_AUTHENTICATE; c_hs := HsFull ex_full;
+             c_steps := [ {| st_ret := HKeepAlive; st_next := Some 1005%Z; st_srv := ex_srv None |};
+                          {| st_ret := HDone; st_next := None; st_srv := ex_srv None |} ] |};
+    EConn {| c_srv := ex_srv (Some (fun p a u => N.eqb u 2)); c_peer := 1%N; c_first := Some DC_AUTHENTICATE;
+             c_hs := HsResume 1%N (Some 1005%Z) true;
+             c_steps := [ {| st_ret := HDone; st_next := None; st_srv := ex_srv None |} ] |};
+    EConn {| c_srv := ex_srv None; c_peer := 1%N; c_first := Some 1006%Z; c_hs := HsErr None; c_steps := [] |} ].
+
+(* the hypotheses of C05_dispatch_real hold of this history and four handlers run in it *)
+Example C05_example_hypotheses_satisfiable :
+  cache_faithful [] /\ Forall full_faithful (history_fulls ex_history) /\
+  Forall entry_faithful (history_imports ex_history) /\
+  map i_handler (history_invocations [] ex_history) = [1%N; 5%N; 5%N; 6%N].
+Proof.
+  split; [constructor|]. split; [repeat constructor|]. split; [constructor|]. vm_compute. reflexivity.
+Qed.
+
+(* The hypothesis "reported = real" of C05_dispatch_real is necessary: with a
+   handshake that reports Encryption on a plaintext stream (the behaviour of
+   setupStreamEncryption before the C03 fix for a client that omits its ECDH
+   key), an encryption-mandating command runs on a plaintext stream. *)
+Example C05_real_needs_faithful_handshake :
+  exists evs i, In i (history_invocations [] evs) /\ i_rawpath i = false /\
+                requires_enc (policy_now i) = true /\ i_enc_real i = false.
+Proof.
+  exists [ EConn {| c_srv := ex_srv None; c_peer := 1%N; c_first := Some DC_AUTHENTICATE;
+                    c_hs := HsFull {| f_cmd := 1005%Z; f_authn := true; f_enc := true; f_user := 2%N; f_sid := 1%N;
+                                      f_haskey := false; f_auth_real := true; f_enc_real := false |};
+                    c_steps := [] |} ].
+  eexists. split; [vm_compute; left; reflexivity|]. vm_compute. auto.
+Qed.
+
+(* ... and so is "no empty AES key" for application-installed sessions:
+   handleSessionResumption derives Encryption=true from the protocol name of a
+   KeyInfo whose Data is empty and never installs a key. *)
+Example C05_real_needs_nonempty_key :
+  exists evs i, In i (history_invocations [] evs) /\ i_rawpath i = false /\
+                requires_enc (policy_now i) = true /\ i_enc_real i = false.
+Proof.
+  exists [ EImport 1%N {| e_key := KAesEmpty; e_authn := true; e_user := 2%N; e_auth_real := true |};
+           EConn {| c_srv := ex_srv None; c_peer := 1%N; c_first := Some DC_AUTHENTICATE;
+                    c_hs := HsResume 1%N (Some 1005%Z) true; c_steps := [] |} ].
+  eexists. split; [vm_compute; left; reflexivity|]. vm_compute. auto.
+Qed.
